@@ -1,11 +1,16 @@
 #!/bin/bash
 # usage: tools/try_patch.sh <patch.diff> <ID> [tier] — applies a seeded change to /repo, runs the check, reverts.
+# The evidence file of the check is saved and restored: the committed evidence must describe a run on the unchanged tree.
 set -u
 patch="$1"; id="$2"; tier="${3:-quick}"
 cd /repo || exit 2
 if ! git diff --quiet; then echo "repo dirty"; exit 2; fi
 git apply "$patch" || { echo "patch does not apply"; exit 2; }
+bak=$(mktemp -d /tmp/evbak.XXXXXX)
+cp /verif/evidence/$id.json $bak/ 2>/dev/null
 cd /verif && ./check "$id" --tier "$tier" 2>&1 | grep -E "^VIOLATION|^KNOWN|aspect=|broken|^C[0-9]+ " | cut -c1-260
 rc=${PIPESTATUS[0]}
-git -C /repo checkout -- . 
+git -C /repo checkout -- .
+[ -f $bak/$id.json ] && cp $bak/$id.json /verif/evidence/$id.json
+rm -rf $bak
 echo "exit=$rc"
